@@ -489,6 +489,18 @@ func (c *Client) PublishPredefined(topicID uint16, payload []byte, qos uint8, re
 
 // Ping sends a PING packet to the MQTT-SN gateway.
 func (c *Client) Ping() error {
+	err, terminated := c.ping()
+	if terminated {
+		return c.group.Wait()
+	}
+	return err
+}
+
+// ping sends a PING packet to the MQTT-SN gateway and waits for the reply.
+// If the client is terminated in the meantime, it returns terminated=true
+// and does not wait for the client's goroutines (unlike Ping), hence it can
+// be used by these goroutines themselves.
+func (c *Client) ping() (err error, terminated bool) {
 	transaction := newPingTransaction(c)
 	ping := pkts1.NewPingreq(nil)
 	c.transactions.StoreByType(pkts.PINGREQ, transaction)
@@ -498,9 +510,9 @@ func (c *Client) Ping() error {
 	}
 	select {
 	case <-transaction.Done():
-		return transaction.Err()
+		return transaction.Err(), false
 	case <-c.groupCtx.Done():
-		return c.group.Wait()
+		return nil, true
 	}
 }
 
